@@ -578,13 +578,18 @@ template <typename FSM>
 std::vector<typename Explorer<FSM>::Round> Explorer<FSM>::rounds(const Exec& x) const {
 	std::vector<Round> out;
 	bool sawCancel = false, sawEntry = false;
+	int lastPending = -1, lastCurrent = -1;
 	std::set<std::pair<int, int>> seen;
 	for (size_t i = x.stepBegin; i < x.stepEnd; ++i) {
 		const TraceEv& e = x.trace[i];
 		if (e.meth == E_CANCEL) { if (!out.empty()) out.back().cancelled = true; sawCancel = true; continue; }
 		if (e.meth != M_ENTRY_GUARD && e.meth != M_EXIT_GUARD) continue;
 		if (e.layer != 0) { if (!out.empty()) out.back().last = i; continue; }
-		const bool fresh = out.empty() || (sawCancel && e.b == 0) || (e.meth == M_EXIT_GUARD && sawEntry) || seen.count({e.state, e.meth});
+		// the set of pending transitions is fixed within a guard pass: another count of pending or of already approved transitions
+		// means another round (needed where no guard repeats, e.g. headless programs)
+		const bool otherCounts = !out.empty() && (e.a != lastPending || e.c != lastCurrent);
+		const bool fresh = out.empty() || (sawCancel && e.b == 0) || (e.meth == M_EXIT_GUARD && sawEntry) || seen.count({e.state, e.meth}) || otherCounts;
+		lastPending = e.a; lastCurrent = e.c;
 		if (fresh) { out.push_back(Round{i, i, false, e.a}); sawCancel = false; sawEntry = false; seen.clear(); }
 		out.back().last = i;
 		seen.insert({e.state, e.meth});
@@ -1263,6 +1268,13 @@ void Explorer<FSM>::checkC09(Runner& r, Exec& x) {
 	if (rs2.active != x.after.active) {
 		std::string a1, a2;
 		for (int s = 0; s < N; ++s) { if (x.after.active[s]) a1 += " S" + str(s); if (rs2.active[s]) a2 += " S" + str(s); }
+		// witness of the known finding: a scheduling request of a vetoed round took effect (C04: scheduling applies regardless)
+		// but, being part of a vetoed round, is not recorded - a later resume / resumable region then resolves differently on the replica
+		bool schedVetoed = false;
+		for (const Tagged& t : seq) if (t.q.kind == T_SCHEDULE && t.status == 2) schedVetoed = true;
+		if (schedVetoed)
+			violation("C09", "replay/config/schedule-of-a-vetoed-round-took-effect", "replica after replaying the recorded transitions is in {" + a2 + " }, the authority in {" + a1 + " }; the step contains a scheduling request in a vetoed round", x);
+		else
 		violation("C09", rs.size() > 1 ? "replay/config-multi-round" : "replay/config", "replica after replaying the recorded transitions is in {" + a2 + " }, the authority in {" + a1 + " }", x);
 		return;
 	}
